@@ -1093,8 +1093,9 @@ BIG_KINDS = [  # (kind, n as a function of the element count c, limit on n)
     ('do', lambda c: c, 1 << 21), ('ef', lambda c: c, 1 << 21), ('ps', lambda c: c, 1 << 21), ('wm', lambda c: c, 1 << 20),
     ('sa', lambda c: 64 * c, 1 << 26), ('vec_u32', lambda c: c, 1 << 22), ('vec_i64', lambda c: c, 1 << 22)]
 
-def big_search_lines(literals):
+def big_search_lines(literals, prop='C08'):
     """requests ordered so that every literal gets its most telling sizes first"""
+    if prop in BIGQ_KINDS: return bigq_search_lines(prop, literals)
     Ls = [v for v in literals if 256 <= v <= 2**28][:8]
     for d in (1 << 16, 1 << 20):
         if d not in Ls: Ls.append(d)
@@ -1118,6 +1119,11 @@ def big_oracle(prop, ans):
     """None = the answer meets the property's clauses; else what fails"""
     if ans == 'ctor-err': return None
     if ans == 'panic': return 'panic'
+    if prop in BIGQ_KINDS:
+        import re
+        m = re.search(r'bad=(\d+) first_bad=(\S+)', ans)
+        if not m: return 'unparsable answer'
+        return None if m.group(1) == '0' else 'answers differ from the plain sequence on %s of the sampled queries, first: %s' % (m.group(1), m.group(2))
     import re
     f = dict(re.findall(r'(\w+)=(.*?)(?= \w+=|$)', ans))
     if 'size' not in f: return 'unparsable answer'
@@ -1131,7 +1137,29 @@ def big_oracle(prop, ans):
         return None
     return None
 
-BIG_SEARCH_PROPS = ('C08', 'C13')
+BIGQ_KINDS = {'C01': [('r9', 1 << 25)], 'C02': [('da', 1 << 25)], 'C03': [('sa', 1 << 25)], 'C04': [('ef', 1 << 21)], 'C05': [('wm', 1 << 20), ('wmd', 1 << 20)],
+              'C09': [('cv', 1 << 22)], 'C10': [('do', 1 << 21)], 'C11': [('db', 1 << 22)], 'C12': [('ps', 1 << 21)]}
+
+def bigq_search_lines(prop, literals):
+    """self-checking query requests (`bigq`, harness/src/big.rs) on large values of the property's structure"""
+    Ls = [v for v in literals if 256 <= v <= 2**26][:8]
+    for d in (1 << 16, 1 << 20):
+        if d not in Ls: Ls.append(d)
+    rounds = [lambda L: L + 3, lambda L: 3 * L + 7, lambda L: L, lambda L: 64 * L, lambda L: 2 * L, lambda L: L // 2, lambda L: 1024 * L - 5, lambda L: L - 1,
+              lambda L: L + 1, lambda L: L // 8, lambda L: L // 64 + 1, lambda L: 5 * L + 11, lambda L: 16 * L + 1]
+    out, seen = [], set()
+    for ri, f in enumerate(rounds):
+        for L in Ls:
+            n = f(L)
+            for kind, lim in BIGQ_KINDS[prop]:
+                if n < 16 or n > lim: continue
+                for sd in range(4):
+                    seed = sd + 4 * ((ri + sd) % 3)
+                    if (kind, n, seed) in seen: continue
+                    seen.add((kind, n, seed)); out.append('bigq %s %d %d' % (kind, n, seed))
+    return out
+
+BIG_SEARCH_PROPS = ('C08', 'C13') + tuple(BIGQ_KINDS)
 
 if __name__ == '__main__':
     import sys
